@@ -88,11 +88,12 @@ func (cl *CBOConfigurationLoaderImpl) MergeConfig(base *domain.CBORequest, overr
 		merged.SortBy = override.SortBy
 	}
 
-	// Thresholds - only override if explicitly set (non-zero values)
-	if override.LowThreshold > 0 {
+	// Thresholds - only override if explicitly set (non-zero, non-default values):
+	// a request carrying the built-in defaults does not hide the configured values
+	if override.LowThreshold > 0 && override.LowThreshold != domain.DefaultCBOLowThreshold {
 		merged.LowThreshold = override.LowThreshold
 	}
-	if override.MediumThreshold > 0 {
+	if override.MediumThreshold > 0 && override.MediumThreshold != domain.DefaultCBOMediumThreshold {
 		merged.MediumThreshold = override.MediumThreshold
 	}
 
